@@ -17,10 +17,14 @@ ITER_METHODS = {
     "unzip",
 }
 CONST = re.compile(r"^(?:Some\()?(true|false|None|\d+|\"[^\"]*\"|\(\))\)?$")
-# loop-carried recurrences that are the documented semantics (one reason each)
+# loop-carried recurrences that are the documented semantics (one reason each), by function: at most `max` such
+# assignments, each directly under an `if let Some(..) = <pattern variable of the loop>`
 RECURRENCES = {
-    ("impl/src/try_from.rs", "last_discriminant"): "Rust's discriminant rule: a variant without an explicit discriminant continues from the last explicit one (+1 per variant); the recurrence itself is checked by rule_discriminants (C12)",
-    ("impl/src/try_from.rs", "inc"): "counter of variants since the last explicit discriminant (same recurrence)",
+    ("impl/src/try_from.rs", "<Expansion as ToTokens>::to_tokens"): (
+        1,
+        "Rust's discriminant rule: a variant without an explicit discriminant continues from the last explicit one (+1 per variant); the base is replaced exactly when the variant has an explicit discriminant; "
+        "the recurrence itself is checked by rule_discriminants (C12)",
+    ),
 }
 
 
@@ -63,6 +67,7 @@ def loop_bodies(fn):
 def rule_iteration_state(ctx):
     """ITER-FRESH: inside every iteration body (iterator-adaptor closure or `for` loop) of the crate, a plain assignment to a variable declared outside the body either stores a constant (monotone flag), or is an unconditional statement of the body executed on every iteration; a conditional store of a per-element value leaks the previous element's value into elements that do not store."""
     n_bodies = n_assign = 0
+    used = {}
     for rel, f in sorted(ctx.files.items()):
         if not rel.startswith("impl/src/"):
             continue
@@ -93,9 +98,14 @@ def rule_iteration_state(ctx):
                     ctx.instance(key, sample={"fn": f"{rel}::{fn.qual}", "loop": desc, "assign": f"{lhs} = {rhs[:80]}", "class": "constant flag" if const else "unconditional per-element slot" if uncond else "CONDITIONAL"})
                     if const or uncond:
                         continue
-                    if (rel, lhs) in RECURRENCES:
-                        ctx.note(f"{rel}: `{lhs}` is a listed recurrence: {RECURRENCES[(rel, lhs)]}")
-                        continue
+                    rk = (rel, fn.qual)
+                    if rk in RECURRENCES:
+                        iff = next((p for p in reversed(ps) if A.kind(p) == "Expr::If"), None)
+                        guarded = iff is not None and A.kind(iff["cond"]) == "Expr::Let" and A.render_pat(iff["cond"]["pat"]).startswith("Some(") and A.render(iff["cond"]["expr"]) in inner
+                        used[rk] = used.get(rk, 0) + 1
+                        if guarded and used[rk] <= RECURRENCES[rk][0]:
+                            ctx.note(f"{rel}::{fn.qual}: `{lhs}` is a listed recurrence: {RECURRENCES[rk][1]}")
+                            continue
                     ctx.report(
                         key,
                         ctx.where(f, asg["left"]),
